@@ -215,6 +215,7 @@ func (ex *Exec) initHarnessAPI() {
 	in["vf:vfNoAlias"] = func(ex *Exec, fr *Frame, a []Value) Value {
 		return tf.Bool(ex.noAlias(a[0], a[1]))
 	}
+	in["vf:vfNativeRepeats"] = func(ex *Exec, fr *Frame, a []Value) Value { return tf.Const(64, 1) }
 	in["vf:vfTier"] = func(ex *Exec, fr *Frame, a []Value) Value { return tf.Const(64, uint64(ex.tier)) }
 	in["vf:vfEvent"] = func(ex *Exec, fr *Frame, a []Value) Value {
 		ex.events = append(ex.events, ex.concStr(a[0], "vfEvent"))
@@ -312,6 +313,18 @@ func (ex *Exec) assert(c *Term, id string) {
 	q := append(append([]*Term{}, ex.pc...), ex.tf.Not(c))
 	r, m := ex.check(q, true)
 	ex.stats.noteSample(id, c)
+	if r == Unsat && len(ex.xsolvers) > 0 {
+		// cross-check the verdict on the other back ends (bit-vector encoding; z3-new, cvc5)
+		for _, xs := range ex.xsolvers {
+			xr, _ := xs.Check(q, false)
+			ex.stats.CrossChecked++
+			if xr != Unsat {
+				ex.stats.CrossDisagree++
+				ex.stats.Inconclusive = append(ex.stats.Inconclusive, fmt.Sprintf("solver disagreement on %s: z3=unsat %s=%s", id, xs.name, xr))
+				r = Unknown
+			}
+		}
+	}
 	switch r {
 	case Unsat:
 		ex.stats.Discharged++
@@ -666,6 +679,10 @@ func (ex *Exec) posShifted(a, b Value, t types.Type, delta *Term, seen map[[2]*O
 	if named, ok := t.(*types.Named); ok && named.Obj().Pkg() != nil && named.Obj().Pkg().Path() == "go/token" && named.Obj().Name() == "Pos" {
 		x, y := a.(*Term), b.(*Term)
 		zero := tf.Eq(x, tf.Const(64, 0))
+		if delta == nil {
+			// positions are ignored except for their validity
+			return tf.Eq(zero, tf.Eq(y, tf.Const(64, 0)))
+		}
 		return tf.Ite(zero, tf.Eq(y, tf.Const(64, 0)), tf.Eq(y, tf.BV("bvadd", x, delta)))
 	}
 	switch u := t.Underlying().(type) {
@@ -727,6 +744,18 @@ func (ex *Exec) posShifted(a, b Value, t types.Type, delta *Term, seen map[[2]*O
 
 func init() {
 	extraAPI = append(extraAPI, func(ex *Exec) {
+		// vfSameIgnoringPos(a, b): structurally equal, every scalar equal, positions compared only for
+		// validity (NoPos or not)
+		ex.intr["vf:vfSameIgnoringPos"] = func(ex *Exec, fr *Frame, a []Value) Value {
+			x, y := a[0].(IfaceV), a[1].(IfaceV)
+			if x.t == nil || y.t == nil {
+				return ex.tf.Bool(x.t == nil && y.t == nil)
+			}
+			if !types.Identical(x.t, y.t) {
+				return ex.tf.Bool(false)
+			}
+			return ex.posShifted(x.v, y.v, x.t, nil, map[[2]*Obj]bool{})
+		}
 		ex.intr["vf:vfPosShifted"] = func(ex *Exec, fr *Frame, a []Value) Value {
 			x, y := a[0].(IfaceV), a[1].(IfaceV)
 			if x.t == nil || y.t == nil {
